@@ -9,12 +9,16 @@ import (
 	"os"
 	"strconv"
 	"strings"
+	"time"
 )
 
 func main() {
 	path := os.Getenv("VERIF_DUMP_FILE")
 	if path == "" {
 		os.Exit(3)
+	}
+	if ms, err := strconv.Atoi(os.Getenv("VERIF_DUMP_DELAY_MS")); err == nil && ms > 0 {
+		time.Sleep(time.Duration(ms) * time.Millisecond) // a hook program that takes a while (C08)
 	}
 	stdin, _ := io.ReadAll(os.Stdin)
 	var b strings.Builder
